@@ -888,6 +888,83 @@ func checkMergeAfterWait(c *core.Ctx, e *eff.Engine, js jobSite, lf *eff.Func, c
 		c.Check(bad == token.NoPos, "C17.R3", cons, "accumulator "+r.Name()+" untouched between submission and Wait", bad,
 			"the submitting function uses the per-thread accumulator "+r.Name()+" after the jobs were submitted and before Wait of their group: it reads partial sums or resets state while worker threads are updating it")
 	}
+	// (d) a result read from one thread's accumulator (return tmp[0].likelihood) is preceded, on every path, by the loop
+	// that merges that field over all threads
+	{
+		fcfg := core.NewFuncCFG(F.Body, info)
+		for _, r := range rs {
+			if owned[r].tags&tagThread == 0 {
+				continue
+			}
+			// fields of the accumulator read in return statements through a constant index
+			type retUse struct {
+				field string
+				pos   token.Pos
+			}
+			var uses []retUse
+			ast.Inspect(F.Body, func(n ast.Node) bool {
+				if lit, ok := n.(*ast.FuncLit); ok && isJobLit(info, F.Body, lit) {
+					return false
+				}
+				rs, ok := n.(*ast.ReturnStmt)
+				if !ok {
+					return true
+				}
+				ast.Inspect(rs, func(m ast.Node) bool {
+					sel, ok := m.(*ast.SelectorExpr)
+					if !ok {
+						return true
+					}
+					ix, ok := ast.Unparen(sel.X).(*ast.IndexExpr)
+					if !ok || identObj(info, ix.X) != r {
+						return true
+					}
+					if tv, ok := info.Types[ix.Index]; ok && tv.Value != nil && jobAssignedFields[sel.Sel.Name] {
+						uses = append(uses, retUse{sel.Sel.Name, rs.Pos()})
+					}
+					return true
+				})
+				return true
+			})
+			for _, u := range uses {
+				// merge loops: for k := ...; { ... r[k].field ... } with k the loop variable
+				merged := false
+				ast.Inspect(F.Body, func(n ast.Node) bool {
+					fs, ok := n.(*ast.ForStmt)
+					if !ok || fs.Cond == nil || fs.Init == nil {
+						return true
+					}
+					as, ok := fs.Init.(*ast.AssignStmt)
+					if !ok || len(as.Lhs) != 1 {
+						return true
+					}
+					lv := identObj(info, as.Lhs[0])
+					if lv == nil {
+						if id, ok := as.Lhs[0].(*ast.Ident); ok {
+							lv = info.Defs[id]
+						}
+					}
+					reads := false
+					ast.Inspect(fs.Body, func(m ast.Node) bool {
+						sel, ok := m.(*ast.SelectorExpr)
+						if !ok || sel.Sel.Name != u.field {
+							return true
+						}
+						if ix, ok := ast.Unparen(sel.X).(*ast.IndexExpr); ok && identObj(info, ix.X) == r && lv != nil && identObj(info, ix.Index) == lv {
+							reads = true
+						}
+						return true
+					})
+					if reads && fcfg.NodeDominates(fs.Cond.Pos(), u.pos) {
+						merged = true
+					}
+					return true
+				})
+				c.Check(merged, "C17.R3", cons, "returned "+r.Name()+"[0]."+u.field+" follows the merge over all threads", u.pos,
+					"the function returns "+r.Name()+"[·]."+u.field+" of one thread on a path that does not pass through the loop merging that field over all threads: the contributions of the other worker threads are lost, so the result depends on the pool size and on which thread ran which job")
+			}
+		}
+	}
 	// (c) local variables of the submitter assigned inside the window (loop counters included) must not be captured by the job
 	{
 		assigned := map[types.Object]token.Pos{}
